@@ -7,6 +7,7 @@ import (
 	"fmt"
 	"os"
 	"os/exec"
+	"os/signal"
 	"path/filepath"
 	"sort"
 	"strings"
@@ -99,6 +100,9 @@ var nontrivialProbes = map[string][]string{
 	"C12": {"retention_removed_jobs", "purge_undefined_pipeline"},
 	"C13": {"read_lock_holder_ran_inside_another"},
 	"C14": {"http_"},
+	"C18": {"env_task_checked"},
+	"C19": {"output_task_checked"},
+	"C17": {"edit_checked_after_poll", "invalid_edit_checked_after_poll"},
 	"C15": {"schedulable_probe", "http_list"},
 	"C16": {"reload_while_queued", "reload_while_running"},
 }
@@ -153,6 +157,7 @@ func TestWorker(t *testing.T) {
 	}
 	log.SetHandler(discard.Default)
 	startWatchdog(job.Out)
+	primeSignals()
 	switch job.Mode {
 	case "replay":
 		workerReplay(t, &job)
@@ -380,6 +385,7 @@ func TestProbe(t *testing.T) {
 	}
 	log.SetHandler(discard.Default)
 	startWatchdog("")
+	primeSignals()
 	b, err := os.ReadFile(path)
 	if err != nil {
 		t.Fatal(err)
@@ -660,4 +666,13 @@ func workerCrash(t *testing.T, job *WorkerJob) {
 	out.Violations = append(out.Violations, FoundViolation{Seed: seed, V: target, Replay: path, OrigTape: len(tape), MinTape: len(mtape),
 		OrigOps: opsCount(sc), MinOps: opsCount(msc), MinRuns: runs, Reproduce: !bySig || contains1(final.sigs, sg)})
 	finish()
+}
+
+
+// primeSignals starts the os/signal loop goroutine outside any bubble (the reload loop of the
+// binary registers for SIGUSR1 from inside one).
+func primeSignals() {
+	c := make(chan os.Signal, 1)
+	signal.Notify(c, syscall.SIGUSR2)
+	signal.Stop(c)
 }
